@@ -5,6 +5,8 @@ package generator
 import (
 	"strings"
 
+	"github.com/aml-org/amf-custom-validator/internal/misc"
+
 	"github.com/aml-org/amf-custom-validator/internal/parser/path"
 	"github.com/aml-org/amf-custom-validator/internal/parser/profile"
 	v "github.com/aml-org/amf-custom-validator/internal/zzverif"
@@ -46,16 +48,48 @@ func refRegoString(s string, pos int) (string, int, bool) {
 			case 't':
 				out = append(out, '\t')
 			case 'u':
-				// \u00XX for XX < 0x80 only (enough for ASCII round trips)
-				if i+5 >= len(s) || s[i+2] != '0' || s[i+3] != '0' {
+				// \uXXXX: a code point of the basic plane, written out as UTF-8 (a surrogate pair
+				// denotes one character beyond the basic plane; a lone half is refused)
+				if i+5 >= len(s) {
 					return "", i, false
 				}
-				h, ok1 := hexVal(s[i+4])
-				l, ok2 := hexVal(s[i+5])
-				if !ok1 || !ok2 {
-					return "", i, false
+				r := 0
+				for k := 2; k <= 5; k++ {
+					h, ok := hexVal(s[i+k])
+					if !ok {
+						return "", i, false
+					}
+					r = r*16 + int(h)
 				}
-				out = append(out, h*16+l)
+				switch {
+				case r < 0x80:
+					out = append(out, byte(r))
+				case r < 0x800:
+					out = append(out, byte(0xC0|r>>6), byte(0x80|r&0x3F))
+				case r >= 0xD800 && r < 0xDC00:
+					// a high surrogate must be followed by an escaped low surrogate: one character beyond the basic plane
+					if i+11 >= len(s) || s[i+6] != '\\' || s[i+7] != 'u' {
+						return "", i, false
+					}
+					lo := 0
+					for k := 8; k <= 11; k++ {
+						h, ok := hexVal(s[i+k])
+						if !ok {
+							return "", i, false
+						}
+						lo = lo*16 + int(h)
+					}
+					if lo < 0xDC00 || lo >= 0xE000 {
+						return "", i, false
+					}
+					cp := 0x10000 + (r-0xD800)<<10 + (lo - 0xDC00)
+					out = append(out, byte(0xF0|cp>>18), byte(0x80|(cp>>12)&0x3F), byte(0x80|(cp>>6)&0x3F), byte(0x80|cp&0x3F))
+					i += 6
+				case r >= 0xDC00 && r < 0xE000:
+					return "", i, false
+				default:
+					out = append(out, byte(0xE0|r>>12), byte(0x80|(r>>6)&0x3F), byte(0x80|r&0x3F))
+				}
 				i += 4
 			default:
 				return "", i, false
@@ -102,12 +136,12 @@ func refAnyString(s string, pos int) (string, int, bool) {
 	return refRegoString(s, pos)
 }
 
-// verifText returns a symbolic printable-ASCII (plus newline/tab) text of length 0..maxLen.
+// verifText returns a symbolic ASCII text (control characters and DEL included) of length 0..maxLen.
 func verifText(name string, maxLen int) string {
 	n := v.Choice(name+".len", maxLen+1)
 	s := v.Bytes(name, n)
 	for i := 0; i < n; i++ {
-		v.Assume((s[i] >= 0x20 && s[i] < 0x7f) || s[i] == '\n' || s[i] == '\t')
+		v.Assume(s[i] < 0x80)
 	}
 	return s
 }
@@ -457,4 +491,67 @@ func VerifC13MessageTwoVars() {
 			}
 		}
 	}
+}
+
+// verifC13EscapeBytes: the escaper behind every pasted text, on EVERY valid UTF-8 text of up to
+// maxLen bytes (control characters, DEL, two- and three-byte characters included): the output
+// between double quotes is one legal Rego string literal that denotes the text.
+func verifC13EscapeBytes(maxLen int) {
+	n := 1 + v.Choice("len", maxLen)
+	s := v.Bytes("s", n)
+	v.Assume(verifValidUTF8(s))
+	lit := "\"" + misc.RegoStringContent(s) + "\""
+	got, end, ok := refRegoString(lit, 0)
+	v.Reach("lexed")
+	v.Assert("C13.escape.literal-closed", ok && end == len(lit))
+	if ok && end == len(lit) {
+		v.Assert("C13.escape.roundtrip", got == s)
+	}
+}
+
+func VerifC13EscapeBytes2() { verifC13EscapeBytes(2) }
+func VerifC13EscapeBytes3() { verifC13EscapeBytes(3) }
+func VerifC13EscapeBytes4() { verifC13EscapeBytes(4) }
+
+// verifValidUTF8: well-formed UTF-8 (Unicode table 3-7),
+// written with comparisons only so that the solver sees it.
+func verifValidUTF8(s string) bool {
+	cont := func(c byte) bool { return c >= 0x80 && c <= 0xBF }
+	for i := 0; i < len(s); {
+		c := s[i]
+		switch {
+		case c < 0x80:
+			i++
+		case c >= 0xC2 && c <= 0xDF:
+			if i+1 >= len(s) || !cont(s[i+1]) {
+				return false
+			}
+			i += 2
+		case c >= 0xE0 && c <= 0xEF:
+			if i+2 >= len(s) || !cont(s[i+1]) || !cont(s[i+2]) {
+				return false
+			}
+			if c == 0xE0 && s[i+1] < 0xA0 {
+				return false
+			}
+			if c == 0xED && s[i+1] > 0x9F {
+				return false
+			}
+			i += 3
+		case c >= 0xF0 && c <= 0xF4:
+			if i+3 >= len(s) || !cont(s[i+1]) || !cont(s[i+2]) || !cont(s[i+3]) {
+				return false
+			}
+			if c == 0xF0 && s[i+1] < 0x90 {
+				return false
+			}
+			if c == 0xF4 && s[i+1] > 0x8F {
+				return false
+			}
+			i += 4
+		default:
+			return false
+		}
+	}
+	return true
 }
